@@ -169,11 +169,29 @@ def _float(I, args, kwargs):
         except OverflowError:
             I.raise_(OverflowError, "int too large to convert to float")
     if isinstance(v, SInt):
-        r = z3.ToReal(v.t)
-        if I.branch(z3.Or(r > Z.MAXF, r < -Z.MAXF)):
-            I.raise_(OverflowError, "int too large to convert to float")
-        return SFloat(Z.fk["fin"], r)
+        return I.int_to_float(v.t)
     I.raise_(TypeError, "float() argument must be a string or a real number")
+
+
+@model(builtins.round, "round(x, n) of a finite float: SOME finite float (uninterpreted function of x and n; nothing else is "
+                       "known about it, in particular not that it equals x); round(x) / other arguments: out of reach")
+def _round(I, args, kwargs):
+    Z = I.Z
+    if len(args) != 2 or kwargs:
+        raise Unsupported("round with one argument")
+    x, n = args
+    if isinstance(x, SV):
+        x = I.view(x)
+    if isinstance(n, SV):
+        n = I.view(n)
+    if not isinstance(x, SFloat) or not isinstance(n, (int, SInt)) or isinstance(n, bool):
+        raise Unsupported("round of something else than a float to a number of digits")
+    if not I.branch(x.k == Z.fk["fin"]):
+        return x                 # round(inf, n) == inf, round(nan, n) is nan
+    f = z3.Function("py_round", z3.RealSort(), z3.IntSort(), z3.RealSort())
+    r = f(x.r, n if isinstance(n, int) else n.t)
+    I.assume(z3.And(r <= Z.MAXF, r >= -Z.MAXF))
+    return SFloat(Z.fk["fin"], r)
 
 
 @model(builtins.int, "int(finite float) truncates toward zero; int(inf) OverflowError; int(nan) ValueError; int(str): "
